@@ -954,156 +954,6 @@ Proof.
     cbn [app mapM]. unfold IR.bind, IR.ret. rewrite Hy. rewrite (IH _ _ Hys Hx). reflexivity.
 Qed.
 
-Lemma L_fbody g k body ctx c code c' sc sc' l :
-  lower_fbody (statement g) (expression g) body ctx c = Ok (code, c') ->
-  frag_stmts pv sv bound fl k sc body = Some sc' ->
-  exists b l', cshape u l code b l' c c'.
-Proof.
-  intros Hlow Hfrag. unfold lower_fbody in Hlow.
-  destruct (rev body) as [|last init_rev] eqn:Hrev.
-  - apply ret_ok in Hlow as [<- <-]. eexists _, _. apply cshape_nil.
-  - assert (Hbody : body = rev init_rev ++ [last]) by (rewrite <- (rev_involutive body), Hrev; reflexivity).
-    rewrite Hbody in Hfrag. clear Hbody Hrev.
-    mon Hlow. apply lower_list_ok in Hm as (cs & Hmi & ->).
-    destruct (frag_stmts_app pv sv bound fl _ _ _ _ _ Hfrag) as (sc1 & k' & Hfi & Hfl).
-    destruct k' as [|k']; [discriminate|]. rewrite frag_stmts_cons in Hfl.
-    destruct (frag_stmt pv sv bound fl k' sc1 last) as [sc2|] eqn:Hflast; [|discriminate Hfl].
-    destruct (L_stmts_all pv sv bound u fl g k (rev init_rev) ctx c cs c0 sc sc1 l Hmi Hfi) as (b1 & l1 & Hs1).
-    destruct last; try (destruct (L_stmt_all pv sv bound u fl g k' _ ctx c0 a0 c' sc1 sc2 l1 Hm0 Hflast) as (b2 & l2 & Hs2);
-                        eexists _, _; eapply cshape_app; eassumption).
-    destruct k' as [|k'']; [discriminate|]. rewrite frag_stmt_sexpr in Hflast. destruct (frag_expr pv sv bound fl k'' sc1 value) eqn:Hfe; [|discriminate Hflast].
-    mon Hm0. destruct a as [cv rv]. cbn [fst snd] in *.
-    destruct (L_expr_all pv sv bound u fl g k'' value ctx c0 cv rv c' sc1 l1 Hm Hfe) as (b2 & l2 & Hs2 & _).
-    eexists _, _. eapply cshape_app; [exact Hs1|]. eapply cshape_app; [exact Hs2|].
-    apply (cshape_plain u l2 (IReturn rv) c' c'); [lia | reflexivity | reflexivity | reflexivity].
-Qed.
-
-Notation P_fb := (P_fb pv sv bound u fl W).
-Notation fb_post := (fb_post pv sv bound u fl W).
-
-Lemma P_fb_zero : P_fb O.
-Proof.
-  intros g k body ctx c code c' e st r st' sc sc' l E stL F Hev. cbn in Hev. inversion Hev; subst. intros. contradiction.
-Qed.
-
-Lemma P_fb_succ n : P_eval n -> P_execs n -> P_fb (S n).
-Proof.
-  intros IHe IHss g k body ctx c code c' e st r st' sc sc' l E stL F Hev Hlow Hfrag Hu Hctx Hrel Hint.
-  (* an abrupt end is outside what the post-condition says *)
-  assert (Hab : r = SyltSem.RAbrupt SyltSem.CBreak \/ r = SyltSem.RAbrupt SyltSem.CContinue ->
-                exists b l', cshape u l code b l' c c' /\ fb_post sc e E stL b r st').
-  { intros [-> | ->]; destruct (L_fbody g k body ctx c code c' sc sc' l Hlow Hfrag) as (b & l' & Hs); exists b, l'; (split; [exact Hs | exact I]). }
-  cbn [SyltSem.block_value] in Hev. unfold lower_fbody in Hlow.
-  destruct (rev body) as [|last init_rev] eqn:Hrev.
-  - (* empty body *)
-    assert (body = []) by (rewrite <- (rev_involutive body), Hrev; reflexivity). subst body.
-    apply ret_ok in Hlow as [<- <-].
-    unfold SyltSem.bind in Hev. destruct n as [|n]; [cbn in Hev; inversion Hev; subst; destruct Hint|].
-    cbn in Hev. inversion Hev; subst r st'.
-    destruct k as [|k]; [discriminate|]. cbn in Hfrag. inversion Hfrag; subst sc'.
-    eexists _, _. split; [apply cshape_nil|]. cbn [fb_post].
-    exists E, SigNormal, stL, sc, e. splits; [apply XS_nil | left; split; reflexivity | exact Hrel | apply sext_refl | apply incl_refl | apply keep_refl | lia].
-  - assert (Hbody : body = rev init_rev ++ [last]) by (rewrite <- (rev_involutive body), Hrev; reflexivity).
-    mon Hlow. apply lower_list_ok in Hm as (cs & Hmi & ->).
-    pose proof Hfrag as Hfrag0.
-    destruct (frag_stmts_app pv sv bound fl _ _ _ _ _ Hfrag0) as (sc1 & k' & Hfi & Hfl).
-    destruct k' as [|k']; [discriminate|]. rewrite frag_stmts_cons in Hfl.
-    destruct (frag_stmt pv sv bound fl k' sc1 last) as [sc2|] eqn:Hflast; [|discriminate Hfl].
-    apply ucovers_app in Hu as [Hui Hul].
-    assert (Hle : c <= c0 /\ c0 <= c').
-    { destruct (L_stmts_all pv sv bound u fl g k (rev init_rev) ctx c cs c0 sc sc1 l Hmi Hfi) as (_ & _ & (_ & H1 & _)).
-      split; [exact H1|]. destruct last; try (destruct (L_stmt_all pv sv bound u fl g k' _ ctx c0 a0 c' sc1 sc2 l Hm0 Hflast) as (_ & _ & (_ & H2 & _)); exact H2).
-      destruct k' as [|k'']; [discriminate|]. rewrite frag_stmt_sexpr in Hflast. destruct (frag_expr pv sv bound fl k'' sc1 value) eqn:Hfe; [|discriminate Hflast].
-      mon Hm0. destruct a as [cv rv]. destruct (L_expr_all pv sv bound u fl g k'' value ctx c0 cv rv c' sc1 l Hm Hfe) as (_ & _ & (_ & H2 & _) & _). exact H2. }
-    destruct Hle as [Hc0 Hc0'].
-    assert (Hctxi : ctx_ok l F E c c0) by (eapply ctx_sub; [exact Hctx | lia | lia]).
-    (* the last statement is not an expression: the value is nil *)
-    assert (Hgen : SyltSem.bind (SyltSem.exec_block n e (rev init_rev ++ [last])) (fun _ : senv => SyltSem.ret (SV Values.VLuaNil)) st = (r, st') ->
-                   statement g last ctx c0 = Ok (a0, c') ->
-                   exists (b : block) (l' : alut), cshape u l (concat cs ++ a0) b l' c c' /\ fb_post sc e E stL b r st').
-    { intros Hev' Hst.
-      pose proof (mapM_snoc _ _ _ _ _ _ _ _ Hmi Hst) as Hmall.
-      assert (Hcc : concat (cs ++ [a0]) = concat cs ++ a0) by (rewrite concat_app; cbn [concat]; rewrite app_nil_r; reflexivity).
-      assert (Huall : ucovers u (concat (cs ++ [a0]))) by (rewrite Hcc; apply ucovers_app; split; assumption).
-      unfold SyltSem.bind at 1 in Hev'.
-      destruct (SyltSem.exec_block n e (rev init_rev ++ [last]) st) as [[e1|o|cc] st1] eqn:He1.
-      3: { inversion Hev'; subst. destruct cc as [| |v]; [apply Hab; auto | apply Hab; auto |].
-           destruct (IHss g k _ ctx c _ c' e st _ st' sc sc' l E stL F He1 Hmall Hfrag0 Huall Hctx Hrel Hint)
-             as (b1 & l1 & Hs1 & Hpost). rewrite Hcc in Hs1.
-           eexists _, _. split; [exact Hs1|]. cbn [stmt_post] in Hpost. eapply fb_of_exit; exact Hpost. }
-      2: { inversion Hev'; subst.
-           destruct (IHss g k _ ctx c _ c' e st _ st' sc sc' l E stL F He1 Hmall Hfrag0 Huall Hctx Hrel Hint)
-             as (b1 & l1 & Hs1 & Hpost). rewrite Hcc in Hs1.
-           eexists _, _. split; [exact Hs1|]. cbn [stmt_post] in Hpost. cbn [fb_post].
-           destruct Hpost as (rl & Hx & (ev & stL' & -> & Htr)). exists ev, stL'. split; assumption. }
-      cbn in Hev'. inversion Hev'; subst r st'. clear Hev'.
-      destruct (IHss g k _ ctx c _ c' e st _ st1 sc sc' l E stL F He1 Hmall Hfrag0 Huall Hctx Hrel I)
-        as (b1 & l1 & Hs1 & E1 & stL1 & F1 & (Hx1 & Hf1 & Hrel1 & _ & Hk1) & Hse1 & Hinc1). rewrite Hcc in Hs1.
-      eexists _, _. split; [exact Hs1|].
-      exists E1, SigNormal, stL1, sc', e1. splits; [exact Hx1 | left; split; reflexivity | exact Hrel1 | exact Hse1 | exact Hinc1 | exact Hk1 | apply (wr_ncell _ _ _ _ _ _ _ Hf1)]. }
-    destruct last; try (apply Hgen; assumption).
-    (* the last statement is an expression: its value is returned *)
-    clear Hgen.
-    destruct k' as [|k'']; [discriminate|]. rewrite frag_stmt_sexpr in Hflast.
-    destruct (frag_expr pv sv bound fl k'' sc1 value) eqn:Hfe; [|discriminate Hflast].
-    mon Hm0. destruct a as [code_v rv]. cbn [fst snd] in *.
-    apply ucovers_app in Hul as [Huv Hur].
-    assert (Hcrv : 1 <= count_of u rv) by (eapply Hur; [left; reflexivity | left; reflexivity]).
-    assert (Hrest : forall l0, exists b2 l2, cshape u l0 code_v b2 l2 c0 c' /\ c0 <= rv /\ rv < c')
-      by (intros l0; apply (L_expr_all pv sv bound u fl g k'' value ctx c0 code_v rv c' sc1 l0 Hm Hfe)).
-    assert (Hret : forall l0, cshape u l0 [IReturn rv] (fst (agen_one u l0 (IReturn rv))) l0 c' c')
-      by (intros l0; apply cshape_plain; [lia | reflexivity | reflexivity | reflexivity]).
-    unfold SyltSem.bind at 1 in Hev.
-    destruct (SyltSem.exec_block n e (rev init_rev) st) as [[e1|o|cc] st1] eqn:He1.
-    3: { inversion Hev; subst. destruct cc as [| |v]; [apply Hab; auto | apply Hab; auto |].
-         destruct (IHss g k _ ctx c _ c0 e st _ st' sc sc1 l E stL F He1 Hmi Hfi Hui Hctxi Hrel Hint)
-           as (b1 & l1 & Hs1 & Hp1). destruct (Hrest l1) as (b2 & l2 & Hs2 & _).
-         eexists _, _. split; [eapply cshape_app; [exact Hs1|]; eapply cshape_app; [exact Hs2 | apply Hret]|].
-         cbn [stmt_post] in Hp1. eapply fb_of_exit. eapply (exit_app pv sv bound u fl W ctx sc e c c0 c'); [exact Hp1 | lia]. }
-    2: { inversion Hev; subst.
-         destruct (IHss g k _ ctx c _ c0 e st _ st' sc sc1 l E stL F He1 Hmi Hfi Hui Hctxi Hrel Hint)
-           as (b1 & l1 & Hs1 & Hp1). cbn [stmt_post] in Hp1. destruct Hp1 as (rl & Hx1 & (ev & stL1 & -> & Htr)).
-         destruct (Hrest l1) as (b2 & l2 & Hs2 & _).
-         eexists _, _. split; [eapply cshape_app; [exact Hs1|]; eapply cshape_app; [exact Hs2 | apply Hret]|].
-         exists ev, stL1. split; [apply ExecS_app_stop; [exact Hx1 | intros []] | exact Htr]. }
-    destruct (IHss g k _ ctx c _ c0 e st _ st1 sc sc1 l E stL F He1 Hmi Hfi Hui Hctxi Hrel I)
-      as (b1 & l1 & Hs1 & E1 & stL1 & F1 & Hok1 & Hse1 & Hinc1).
-    pose proof Hok1 as (Hx1 & Hf1 & Hrel1 & _ & Hk1).
-    assert (Hctx1 : ctx_ok l1 F1 E1 c0 c') by (eapply ctx_afterS; eassumption).
-    destruct (SyltSem.eval n e1 value st1) as [[v_|o|cc] st2] eqn:He2.
-    3: { inversion Hev; subst. destruct cc as [| |v]; [apply Hab; auto | apply Hab; auto |].
-         destruct (IHe g k'' value ctx c0 code_v rv c' e1 st1 _ st' sc1 l1 E1 stL1 F1 He2 Hm Hfe Huv Hctx1 Hrel1 Hint)
-           as (b2 & l2 & Hs2 & _ & _ & Hp2). cbn [eval_post] in Hp2.
-         eexists _, _. split; [eapply cshape_app; [exact Hs1|]; eapply cshape_app; [exact Hs2 | apply Hret]|].
-         eapply fb_of_exit.
-         eapply (exit_pre pv sv bound u fl W ctx sc sc1 e e1 st st1 F F1 c c0 c'); [exact Hok1 | exact Hrel | exact Hse1 | exact Hinc1 | | lia | lia].
-         eapply exit_app; [exact Hp2 | apply N.le_refl]. }
-    2: { inversion Hev; subst.
-         destruct (IHe g k'' value ctx c0 code_v rv c' e1 st1 _ st' sc1 l1 E1 stL1 F1 He2 Hm Hfe Huv Hctx1 Hrel1 Hint)
-           as (b2 & l2 & Hs2 & _ & _ & Hp2). cbn [eval_post] in Hp2. destruct Hp2 as (rl & Hx2 & (ev & stL2 & -> & Htr)).
-         eexists _, _. split; [eapply cshape_app; [exact Hs1|]; eapply cshape_app; [exact Hs2 | apply Hret]|].
-         exists ev, stL2. split; [|exact Htr].
-         eapply ExecS_app; [exact Hx1|]. apply ExecS_app_stop; [exact Hx2 | intros []]. }
-    inversion Hev; subst r st'. clear Hev.
-    destruct (IHe g k'' value ctx c0 code_v rv c' e1 st1 _ st2 sc1 l1 E1 stL1 F1 He2 Hm Hfe Huv Hctx1 Hrel1 I)
-      as (b2 & l2 & Hs2 & _ & _ & E2 & stL2 & F2 & Hok2 & Hd2). specialize (Hd2 Hcrv).
-    pose proof Hok2 as (Hx2 & Hf2 & Hrel2 & _ & Hk2).
-    eexists _, _. split; [eapply cshape_app; [exact Hs1|]; eapply cshape_app; [exact Hs2 | apply Hret]|].
-    destruct (denotes_now _ _ _ _ _ Hd2 (r_wf _ _ _ _ _ _ _ _ _ _ _ Hrel2) (r_linv _ _ _ _ _ _ _ _ _ _ _ Hrel2)) as (lv & Hv & st3 & _ & Hm3 & Hx3).
-    exists E2, (SigReturn [lv]), st3, sc1, e1. splits.
-    + eapply ExecS_app; [exact Hx1|]. eapply ExecS_app; [exact Hx2|].
-      cbn [agen_one fst]. apply XS_stop; [|intros []].
-      eapply Exec_do. apply ExecBlock_of_ExecS; [|repeat constructor | intros []].
-      apply XS_stop; [|intros []]. apply Exec_return. apply EvalList_one. exact Hm3.
-    + right. exists lv. split; [reflexivity | exact Hv].
-    + eapply rel_cells_ext; eassumption.
-    + exact Hse1.
-    + exact Hinc1.
-    + intros w Hw. rewrite (Hk2 w (Hinc1 w Hw)). apply Hk1. exact Hw.
-    + pose proof (wr_ncell _ _ _ _ _ _ _ Hf1). pose proof (wr_ncell _ _ _ _ _ _ _ Hf2).
-      destruct Hx3 as (_ & _ & _ & _ & _ & _ & Hn3 & _). lia.
-Qed.
-
 Lemma P_bv_zero : P_bv O.
 Proof.
   intros g k body ctx c code c' e st r st' sc sc' l E stL F out p lo hi Hev.
